@@ -1,3 +1,4 @@
+CONSTANT Want = {"c01"}
 INIT TraceInit
 NEXT TraceNext
 INVARIANTS C01_UnitsPreserved
